@@ -97,6 +97,12 @@ def strategy():
                     # a read lying over the sites of this contig is resolved (getAllele), then more point lookups follow
                     ops.append(['ga', c, draw(st.integers(0, 10 ** 6))])
                     queries(c, draw(st.integers(1, 3)))
+            if len(contigs) >= 2 and draw(st.integers(0, 2)) == 0:
+                # allele lookup on A, only a has_location lookup on B (which evicts A in the lazy modes), allele lookup on A again
+                ca, cb = draw(st.permutations(contigs))[:2]
+                for c_, mode_ in ((ca, 'a'), (cb, 'h'), (ca, 'a')):
+                    queries(c_, 1)
+                    ops[-1][4] = mode_
         return {'contigs': contigs, 'samples': samples, 'records': recs, 'select': sel, 'ignore': ign, 'ops': ops}
     return case()
 
